@@ -355,34 +355,55 @@ def rule_r7_concrete(ctx: Ctx) -> None:
     from . import concrete as C
     from .c06 import _same
 
-    ctx.rule("C14.R7", "two revisions D / D' of a delimited type with the same extent (D' appends fields), nested as field, array element, union variant and inside another delimited type: the containers' bit_length_set and extent are equal, and data serialized with either revision deserializes with the other - common fields keep their values, appended ones read as zero / empty, unknown ones are skipped, and everything after the nested object (further elements, following fields) is read correctly [bounded grid, evaluated from the source]", min_instances=4)
+    ctx.rule("C14.R7", "two revisions D / D' of a delimited type with the same extent (D' appends fields), nested as field, array element, union variant and inside another delimited type: the containers' bit_length_set and extent are equal, and data serialized with either revision deserializes with the other - common fields keep their values, appended ones read as zero / empty, unknown ones are skipped, and everything after the nested object (further elements, following fields) is read correctly [bounded grid, evaluated from the source]", min_instances=8)
     T = C.Types(ctx)
     u8, u16 = T.uint(8), T.uint(16, True)
-    old_fields = [("a", u8), ("b", T.varr(u8, 2))]
-    new_fields = old_fields + [("c", u16), ("d", T.varr(u16, 2)), ("e", T.boolean())]
-    d_old = T.delimited(T.struct("D {uint8 a; uint8[<=2] b}", old_fields), 128)
-    d_new = T.delimited(T.struct("D' {uint8 a; uint8[<=2] b; uint16 c; uint16[<=2] d; bool e}", new_fields), 128)
+    inner = T.struct("Inner {uint8 q}", [("q", u8)])
+    inner5 = T.struct("Inner5 {uint5 r}", [("r", T.uint(5))])
+    n = 0
+    # two families of revisions: byte-sized leading fields; and leading fields that make the reader skip alignment padding
+    # inside the payload (a bool before a nested composite, a nested composite whose size is not a whole number of bytes)
+    families = [
+        ("D", [("a", u8), ("b", T.varr(u8, 2))], [("c", u16, 0), ("d", T.varr(u16, 2), []), ("e", T.boolean(), False)],
+         [{"a": 1, "b": [2], "c": 0x1234, "d": [7, 8], "e": True}, {"a": 3, "b": [], "c": 5, "d": [], "e": False}, {"a": 9, "b": [8, 7], "c": 65535, "d": [1], "e": True}]),
+        ("G", [("valid", T.boolean()), ("n", inner), ("m", inner5)], [("c", u16, 0), ("f", T.uint(7), 0), ("d", T.varr(u8, 2), [])],
+         [{"valid": True, "n": {"q": 0xFF}, "m": {"r": 31}, "c": 0xFFFF, "f": 127, "d": [255, 255]}, {"valid": False, "n": {"q": 1}, "m": {"r": 0}, "c": 1, "f": 1, "d": []}, {"valid": True, "n": {"q": 0x80}, "m": {"r": 17}, "c": 0x8001, "f": 64, "d": [128]}]),
+    ]
+    for fam, old_fields, appended, samples in families:
+        n += _revisions(ctx, T, C, fam, old_fields, appended, samples)
+    ctx.count(n)
+
+
+def _revisions(ctx: Ctx, T: Any, C: Any, fam: str, old_fields: List[Any], appended: List[Any], samples: List[Dict[str, Any]]) -> int:
+    from .c06 import _same
+
+    u8, u16 = T.uint(8), T.uint(16, True)
+    new_fields = old_fields + [(nm, t) for nm, t, _ in appended]
+    zero = {nm: z for nm, _, z in appended}
+    d_old = T.delimited(T.struct("%s {%s}" % (fam, "; ".join(nm for nm, _ in old_fields)), old_fields), 128)
+    d_new = T.delimited(T.struct("%s' {%s}" % (fam, "; ".join(nm for nm, _ in new_fields)), new_fields), 128)
 
     def containers(d: Any) -> List[Any]:
-        st = T.struct("C {uint3 x; D one; uint8 y; D[<=3] many; D[2] pair; uint8 z}", [("x", T.uint(3)), ("one", d), ("y", u8), ("many", T.varr(d, 3)), ("pair", T.farr(d, 2)), ("z", u8)])
-        un = T.union("V {uint8 k; D v; uint16 w}", [("k", u8), ("v", d), ("w", u16)])
-        outer = T.delimited(T.struct("O {D first; V u; uint8 last}", [("first", d), ("u", un), ("last", u8)]), 1024)
+        st = T.struct("C {uint3 x; %s one; uint8 y; %s[<=3] many; %s[2] pair; uint8 z}" % (fam, fam, fam), [("x", T.uint(3)), ("one", d), ("y", u8), ("many", T.varr(d, 3)), ("pair", T.farr(d, 2)), ("z", u8)])
+        un = T.union("V {uint8 k; %s v; uint16 w}" % fam, [("k", u8), ("v", d), ("w", u16)])
+        outer = T.delimited(T.struct("O {%s first; V u; uint8 last}" % fam, [("first", d), ("u", un), ("last", u8)]), 1024)
         return [st, un, outer, d]
 
     olds, news = containers(d_old), containers(d_new)
-    O = lambda a, b: {"a": a, "b": list(b)}  # noqa: E731
-    N = lambda a, b, c, d_, e: {"a": a, "b": list(b), "c": c, "d": list(d_), "e": e}  # noqa: E731
+    old_names = [nm for nm, _ in old_fields]
 
     def blank(v: Any) -> Any:
         """what a reader of the new revision sees of an object written by the old one"""
-        return {"a": v["a"], "b": v["b"], "c": 0, "d": [], "e": False}
+        out = {k: v[k] for k in old_names}
+        out.update({k: (list(z) if isinstance(z, list) else z) for k, z in zero.items()})
+        return out
 
     def strip(v: Any) -> Any:
-        return {"a": v["a"], "b": v["b"]}
+        return {k: v[k] for k in old_names}
 
     def convert(v: Any, f: Any, t_from: Any) -> Any:
-        """the value v of container type t_from with every D object mapped by f"""
-        if t_from.kind == "delimited" and t_from.inner is not None and t_from.inner.label.startswith("D"):
+        """the value v of container type t_from with every object of the family mapped by f"""
+        if t_from.kind == "delimited" and t_from.inner is not None and t_from.inner.label.startswith(fam):
             return f(v)
         if t_from.kind == "delimited":
             return convert(v, f, t_from.inner)
@@ -395,11 +416,11 @@ def rule_r7_concrete(ctx: Ctx) -> None:
             return [convert(x, f, t_from.elem) for x in v]
         return v
 
-    n1, n2, n3 = N(1, [2], 0x1234, [7, 8], True), N(3, [], 5, [], False), N(9, [8, 7], 65535, [1], True)
+    n1, n2, n3 = samples
     values_new = {
-        0: [{"x": 5, "one": n1, "y": 0xAA, "many": [n2, n3, n1], "pair": [n3, n2], "z": 0x55}, {"x": 1, "one": n2, "y": 1, "many": [], "pair": [n1, n1], "z": 2}],
+        0: [{"x": 5, "one": n1, "y": 0xAA, "many": [n2, n3, n1], "pair": [n3, n2], "z": 0x55}, {"x": 1, "one": n2, "y": 0xFF, "many": [], "pair": [n1, n1], "z": 0xFF}, {"x": 7, "one": n3, "y": 0xFF, "many": [n1, n1], "pair": [n1, n3], "z": 0xFF}],
         1: [{"v": n1}, {"k": 7}, {"w": 300}],
-        2: [{"first": n3, "u": {"v": n1}, "last": 0x77}, {"first": n2, "u": {"k": 1}, "last": 2}],
+        2: [{"first": n3, "u": {"v": n1}, "last": 0x77}, {"first": n2, "u": {"k": 255}, "last": 0xFF}, {"first": n1, "u": {"v": n3}, "last": 0xFF}],
         3: [n1, n2],
     }
     n = 0
@@ -417,16 +438,16 @@ def rule_r7_concrete(ctx: Ctx) -> None:
                 want = C.decode(t_old, C.encode(t_new, v_new, hdr), hdr)
                 n += 2
                 if not (_same(got, want) and (_same(want, v_old) or (i == 3 and not hdr))):
-                    bad.append({"written with": "D'", "read with": "D", "value": repr(v_new)[:100], "found": repr(got)[:160], "expected": repr(v_old)[:160]})
+                    bad.append({"written with": fam + "'", "read with": fam, "value": repr(v_new)[:100], "found": repr(got)[:160], "expected": repr(v_old)[:160]})
                 # written by the old revision, read by the new one: the appended fields read as zero / empty
                 data = C.run_codec(ctx, T, "serialize", t_old, v_old, hdr)
                 got = C.run_codec(ctx, T, "deserialize", t_new, bytes(data), hdr) if isinstance(data, (bytes, bytearray)) else data
                 want2 = convert(v_old, blank, t_old)
                 n += 2
                 if not _same(got, want2):
-                    bad.append({"written with": "D", "read with": "D'", "value": repr(v_old)[:100], "found": repr(got)[:160], "expected": repr(want2)[:160]})
+                    bad.append({"written with": fam, "read with": fam + "'", "value": repr(v_old)[:100], "found": repr(got)[:160], "expected": repr(want2)[:160]})
         ctx.check(not bad, t_new.label, "%d values x both directions" % len(values_new[i]), "revisions of an appendable type are interchangeable inside their containers: layout unchanged, common fields kept, appended fields zero / skipped, whatever follows read correctly", "pydsdl/_serdes.py", bad[:3])
-    ctx.count(n)
+    return n
 
 
 def _eval_layout(ctx: Ctx, T: Any, t: Any) -> Any:
